@@ -262,16 +262,24 @@ Fixpoint enum (alphabet : str) (depth : nat) (prefix : str) : list str :=
 Definition accepted (cur : str) (xs : list str) : list (str * label) :=
   flat_map (fun x => match try_parse x cur [] with Parsed l => [(x, l)] | _ => [] end) xs.
 
-(* The accepted strings of a group with their labels, as one byte string: per entry
-   target SP pkg SP name SP subrepo '|'.  (A list of 4 000 pairs of string literals takes Coq minutes to
-   elaborate, one string literal does not.)  SP and '|' occur in no string over the enumeration alphabets
-   the harness uses, nor in its current package, so the encoding is injective there. *)
+(* The accepted strings of a group with their labels as one byte string - per entry
+   target SP pkg SP name SP subrepo '|' - and a 60-bit polynomial digest of it.  SP and '|' occur in no string
+   over the enumeration alphabet the harness uses, nor in its current package, so the encoding is injective
+   there.  Large groups are compared by (number of accepted strings, digest): a list of 30 000 string literals
+   takes Coq minutes to elaborate.  Groups of short strings are compared entry by entry (CEnum). *)
 Definition encode_accepted (l : list (str * label)) : str :=
   flat_map (fun e : str * label =>
               fst e ++ 32%N :: l_pkg (snd e) ++ 32%N :: l_name (snd e) ++ 32%N :: l_sub (snd e) ++ [124%N]) l.
 
+(* h := (h*257 + b + 1) mod 2^60 *)
+Definition digest_step (h b : N) : N := N.land (N.shiftl h 8 + h + b + 1) 1152921504606846975%N.
+Definition digest (x : str) : N := fold_left digest_step x 0%N.
+
+Definition pair_eqb (a b : str * label) : bool := str_eqb (fst a) (fst b) && label_eqb (snd a) (snd b).
+
 Inductive case :=
-| CEnum (alphabet : str) (depth : nat) (prefix cur : str) (acc : str)
+| CEnum (alphabet : str) (depth : nat) (prefix cur : str) (acc : list (str * label))
+| CEnumDigest (alphabet : str) (depth : nat) (prefix cur : str) (count : nat) (dig : N)
 | CParse (target cur subrepo : str) (out : option label)
 | CPrint (l : label) (out : str)
 | CSelect (pats others : list label) (inc mat : list (list bool))   (* Includes / Matches, one row per pattern *)
@@ -293,7 +301,10 @@ Definition subset_eqb (a b : list label) : bool :=
 
 Definition check (c : case) : bool :=
   match c with
-  | CEnum al d pre cur acc => str_eqb (encode_accepted (accepted cur (enum al d pre))) acc
+  | CEnum al d pre cur acc => list_eqb pair_eqb (accepted cur (enum al d pre)) acc
+  | CEnumDigest al d pre cur n dig =>
+      let acc := accepted cur (enum al d pre) in
+      Nat.eqb (length acc) n && N.eqb (digest (encode_accepted acc)) dig
   | CParse t cur sr out => parsed_eqb (try_parse t cur sr) out
   | CPrint l out => str_eqb (print l) out
   | CSelect pats others inc mat =>
